@@ -624,13 +624,13 @@ def fault_variants(max_faults):
             c = copy.deepcopy(base)
             c.name = f"{s.name}-f{k}"
             old = next((a for a in c.acts if a[0] == cb and a[1] <= tid <= a[2]), None)
-            c.acts.insert(0, (cb, tid, tid, 0, rng.randint(1, 19), list(old[5]) if old else []))
+            c.acts.insert(0, (cb, tid, tid, 0, rng.randint(1, eng.MAX_EXC_TAG), list(old[5]) if old else []))
             # two failures in a row: sometimes add a second fault later
             if rng.random() < 0.25:
                 later = [x for x in pos if x[1] > tid]
                 if later:
                     cb2, tid2, _ = rng.choice(later)
-                    c.acts.insert(0, (cb2, tid2, tid2, 0, rng.randint(1, 19), []))
+                    c.acts.insert(0, (cb2, tid2, tid2, 0, rng.randint(1, eng.MAX_EXC_TAG), []))
             # make sure something is sent after the failure
             evs = sorted({e for t in c.trans for e in t.events})
             c.ops = list(c.ops) + [("send", rng.choice(evs)), ("send", rng.choice(evs))]
